@@ -13,13 +13,17 @@ open Soxr.Vr.C16
 #print axioms chunk_length
 #print axioms immediate_when_zero
 #print axioms immediate_quiescent
-#print axioms immediate_quiescent_fixed
+#print axioms immediate_cancels_fadeout_slew
 #print axioms stays_at_target
 #print axioms immediate_then_stays
-#print axioms stays_at_target_fails_during_slew
-#print axioms stays_at_target_fails_snap_pending
-#print axioms witnesses_repaired
+#print axioms request_settles
+#print axioms Historical.setIoRatio_eq_pre_after_clear
+#print axioms Historical.setIoRatio_eq_pre_of_quiescent
+#print axioms Historical.pre_fix_stays_at_target_fails_during_slew
+#print axioms Historical.pre_fix_stays_at_target_fails_snap_pending
+#print axioms Historical.witnesses_repaired
 #print axioms stage_switch_rescale
+#print axioms stage_switch_shifts_as_repaired_code
 #print axioms stage_switch_down_continuous
 #print axioms stage_switch_up_continuous
 #print axioms frames_for_constant_ratio
@@ -28,3 +32,7 @@ open Soxr.Vr.C16
 #print axioms cr_accepts_same_ratio
 #print axioms vr_accepts
 #print axioms set_io_ratio_error_changes_nothing
+#print axioms fade_alignment_fails
+#print axioms not_fade_alignment_for_all_runs
+#print axioms fade_alignment_down_partial
+#print axioms fade_alignment_chunk_partial
